@@ -25,7 +25,7 @@ RULE = ('case = (message class, construction path, UID length, history of 1..5 s
 ASSUMPTIONS = ['pydicom encodes single elements correctly (the group length is checked against the bytes actually sent)']
 REQUIRED = ['oracle.command-set-parsed', 'oracle.dataset-flag', 'oracle.resend']
 
-N = {'quick': 6000, 'thorough': 120000}
+N = {'quick': 6000, 'thorough': 600000}
 
 
 def exhaustive(tier):
